@@ -39,16 +39,41 @@ type twinBound struct {
 
 func runTwinBounds(c *core.Ctx, base int64) {
 	idx := base
+	type pair struct {
+		d      string
+		pa, pb uint
+	}
+	var pairs []pair
 	for _, d := range twinTexts {
-		a := cty.MustParseNumberVal(d)
-		f64, _ := a.AsBigFloat().Float64()
-		b := cty.NumberFloatVal(f64)
+		pairs = append(pairs, pair{d, 512, 53})
+	}
+	for _, d := range twinTexts[:3] {
+		pairs = append(pairs, pair{d, 512, 100}, pair{d, 53, 24}, pair{d, 64, 200})
+	}
+	at := func(d string, prec uint) (cty.Value, string) {
+		f, _, err := big.ParseFloat(d, 10, prec, big.ToNearestEven)
+		if err != nil {
+			panic(err)
+		}
+		switch prec {
+		case 512:
+			return cty.MustParseNumberVal(d), fmt.Sprintf("cty.MustParseNumberVal(%q)", d)
+		case 53:
+			f64, _ := f.Float64()
+			return cty.NumberFloatVal(f64), fmt.Sprintf("cty.NumberFloatVal(%v)", f64)
+		}
+		return cty.NumberVal(f), fmt.Sprintf("%s@%dbits", d, prec)
+	}
+	for _, pr := range pairs {
+		d := pr.d
+		a, aT := at(d, pr.pa)
+		b, bT := at(d, pr.pb)
 		cmp := a.AsBigFloat().Cmp(b.AsBigFloat())
 		if cmp == 0 {
 			continue
 		}
 		lo, hi := a, b
-		loT, hiT := fmt.Sprintf("cty.MustParseNumberVal(%q)", d), fmt.Sprintf("cty.NumberFloatVal(%v)", f64)
+		loT, hiT := aT, bT
 		if cmp > 0 {
 			lo, hi, loT, hiT = b, a, hiT, loT
 		}
@@ -79,7 +104,7 @@ func runTwinBounds(c *core.Ctx, base int64) {
 			}
 		}
 	}
-	c.Exhaustive("decimal twins as numeric bounds: 6 texts x {53-bit, midpoint, 512-bit} x lower/upper/both x inclusive/exclusive x with/without not-null, every member of the triple as candidate")
+	c.Exhaustive("decimal twins as numeric bounds: 6 texts x {53-bit, midpoint, 512-bit} (3 texts also at 100/512, 24/53, 200/64 bits) x lower/upper/both x inclusive/exclusive x with/without not-null, every member of the triple as candidate")
 }
 
 func twinCase(c *core.Ctx, idx int64, nn bool, l, h twinBound, vals []cty.Value, txts []string) {
